@@ -256,6 +256,8 @@ def symbolic_params(c, it: Interp, fixed: dict):
 
 
 def n_variants(qualname: str) -> int:
+    if qualname.startswith("frame:"):
+        return 1
     return len(_enum_space(registry.CONTRACTS[qualname]))
 
 
@@ -280,7 +282,45 @@ def verify_function(qualname: str, timeout_ms=20000, cross_check=False, only=Non
     return rep
 
 
+def _verify_frame(qualname: str, chunk=None) -> FunctionReport:
+    """frame of a class: the members its source defines are exactly those the sidecar knows (under contract or acknowledged as
+    not under contract).  A member the sidecar has never seen means the contracts no longer describe the class: undecided."""
+    rep = FunctionReport(qualname)
+    c = registry.CONTRACTS[qualname]
+    if chunk is not None and chunk[0] != 0:
+        return rep
+    cls = qualname[len("frame:"):]
+    t0 = time.time()
+    try:
+        node = extract.class_def(cls)
+    except extract.ExtractError as e:
+        rep.status, rep.reason = "undecided", f"extraction: {e}"
+        return rep
+    rep.info = {"qualname": qualname, "kind": "class frame", "lineno": node.lineno}
+    have = set()
+    for st_ in node.body:
+        if isinstance(st_, (ast.FunctionDef, ast.AsyncFunctionDef)):
+            have.add(st_.name)
+        elif isinstance(st_, ast.Assign):
+            have |= {t.id for t in st_.targets if isinstance(t, ast.Name)}
+        elif isinstance(st_, ast.AnnAssign) and isinstance(st_.target, ast.Name):
+            have.add(st_.target.id)
+    known = set(c.frame["under_contract"]) | set(c.frame["acknowledged"])
+    new, gone = sorted(have - known), sorted(set(c.frame["under_contract"]) - have)
+    if new or gone:
+        rep.status = "undecided"
+        rep.reason = (f"sidecar no longer matches the source: class {cls} " + (f"defines members the contracts do not know: {new} " if new else "")
+                      + (f"no longer defines members under contract: {gone}" if gone else ""))
+        return rep
+    rep.results.append(Result(f"{qualname}/frame.members_are_the_ones_the_contracts_describe", "discharged", "syntactic", time.time() - t0,
+                              kind="frame", line=node.lineno))
+    rep.variants = 1
+    return rep
+
+
 def _verify_function(qualname: str, timeout_ms=20000, cross_check=False, only=None, chunk=None) -> FunctionReport:
+    if qualname.startswith("frame:"):
+        return _verify_frame(qualname, chunk)
     rep = FunctionReport(qualname)
     c = registry.CONTRACTS[qualname]
     try:
